@@ -1,6 +1,8 @@
 import NutilsVerif.Model.C11Spec
 import NutilsVerif.Generated.C11Refs
 import NutilsVerif.Proofs.C11Rewrite
+import NutilsVerif.Proofs.C11Alg
+import NutilsVerif.Proofs.C11Simplex
 /-!
 # C11 — property theorems
 
@@ -75,5 +77,134 @@ theorem promote_preserves (l : Chain) (n td fd : Nat) (h : Fits l td fd) : SameM
 example : Fits [.sq (.tensorChild (.simplexChild 1 0) (.tensorChild (.simplexChild 1 1) (.simplexChild 1 0))),
                 .up (.tensorEdge2 1 (.tensorEdge1 (.simplexEdge 1 0 false) 1)), .up (.tensorEdge1 (.simplexEdge 1 1 false) 1)] 3 1 :=
   .cons _ _ _ (by decide) (.cons _ _ _ (by decide) (.cons _ _ _ (by decide) (.nil _)))
+
+/-! ## normal forms and lookups
+
+`nfDown` / `nfUp` (Model/C11Norm.lean) are the chains with every updim swapped as far to the front / back as possible, defined
+by structural recursion.  On a class of items on which the two swaps undo each other (`RevSys`) both are invariants of the
+equivalence generated by the swaps; this is what makes a lookup through any nesting of derived sequences find the element. -/
+
+/-- the index loop of `transform.canonical` computes the down-normal form of every well-formed chain (of any length) -/
+theorem canonical_is_normal_form (l : Chain) (td fd : Nat) (h : Fits l td fd) : canonical l = nfDown l ∧ DnNormal (canonical l) :=
+  ⟨canonical_eq_nfDown l td fd h, canonical_normal l td fd h⟩
+
+/-- the index loop of `transform.uppermost` computes the up-normal form of every well-formed chain -/
+theorem uppermost_is_normal_form (l : Chain) (td fd : Nat) (h : Fits l td fd) : uppermost l = nfUp l ∧ UpNormal (uppermost l) :=
+  ⟨uppermost_eq_nfUp l td fd h, uppermost_normal l td fd h⟩
+
+/-- (X) the items of simplex meshes form a reversible class: by the extracted `SimplexEdge.swap` table, `swapdown` undoes
+`swapup` and vice versa, and the class is closed under both. -/
+theorem simplex_reversible : RevSys SimplexItem := simplexItem_revSys
+
+/-- For general tensor items the two swaps do NOT undo each other: `TensorEdge1.swapdown` hands back an `Identity` produced by an
+earlier `ScaledUpdim` fallback, which `TensorEdge1.swapup` refuses.  This is the formal counterpart of the known finding
+`lookup-own-element:swapdown-identity-not-swapped-back` (lookups fail on 4-D tensor elements). -/
+theorem tensor_swapdown_not_inverted :
+    ∃ a b x y : Item, a.wf = true ∧ b.wf = true ∧ a.fd = b.td ∧ Item.swapdown a b = some (x, y) ∧ Item.swapup x y = none :=
+  ⟨.sq (.tensorChild (.simplexChild 1 0) (.identity 1)), .up (.tensorEdge1 (.simplexEdge 1 1 false) 1),
+    .up (.tensorEdge1 (.simplexEdge 1 1 false) 1), .sq (.identity 1),
+    by decide, by decide, by decide, by decide +kernel, by decide +kernel⟩
+
+/-- **Element lookup.**  For every well-formed nesting `s` of index, masked, reordered, derived (children or edges, uniform or
+not) and chained sequences over a reversible class of items, every element `i`, and every tail `t` of items of that class
+(any number of child *and* edge transforms): `index_with_tail(s[i] + t)` returns `i` and a remainder `t'` that is a chain
+between the same dimensions, equivalent to `t`, denotes the same affine map on every point and has the same orientation. -/
+theorem indexWithTail_get (G : Item → Prop) (hG : RevSys G) (key : Item → Nat) (s : TSeq) (hs : s.WF G key)
+    (i : Nat) (hi : i < s.len) (t : Chain) (fdt : Nat) (ht : GFits G t s.fd fdt) :
+    ∃ ch t', s.get i = some ch ∧ s.iwt key (ch ++ t) = .ok (i, t') ∧ GFits G t' s.fd fdt ∧ Eqv t' t ∧
+      SameMap t t' s.fd fdt := by
+  obtain ⟨ch, t', hg, hl, hf, he⟩ := iwt_get hG key s hs i hi t fdt ht
+  exact ⟨ch, t', hg, hl, hf, he, hG.eqv_sameMap ht hf (Eq.symm he)⟩
+
+/-- `transforms.index(transforms[i]) = i` and `transforms.contains(transforms[i])`, same generality. -/
+theorem index_get (G : Item → Prop) (hG : RevSys G) (key : Item → Nat) (s : TSeq) (hs : s.WF G key) (i : Nat) (hi : i < s.len) :
+    ∃ ch, s.get i = some ch ∧ s.indexOf key ch = .ok i ∧ s.contains key ch = .ok true := by
+  obtain ⟨ch, t', hg, hl, _, he⟩ := iwt_get hG key s hs i hi [] s.fd ⟨.nil _, by simp⟩
+  have ht' : t' = [] := List.eq_nil_of_length_eq_zero (by simpa using he.length_eq)
+  subst ht'
+  simp only [List.append_nil] at hl
+  exact ⟨ch, hg, by simp [TSeq.indexOf, hl], by simp [TSeq.contains, TSeq.indexOf, hl]⟩
+
+/-- The lookup theorem for simplex meshes without further hypotheses on the items: lines, triangles, tetrahedra, their
+boundaries, interfaces, refinements, hierarchical unions, with tails through any children and edges. -/
+theorem indexWithTail_get_simplex (key : Item → Nat) (s : TSeq) (hs : s.WF SimplexItem key) (i : Nat) (hi : i < s.len)
+    (t : Chain) (fdt : Nat) (ht : GFits SimplexItem t s.fd fdt) :
+    ∃ ch t', s.get i = some ch ∧ s.iwt key (ch ++ t) = .ok (i, t') ∧ GFits SimplexItem t' s.fd fdt ∧ Eqv t' t ∧
+      SameMap t t' s.fd fdt :=
+  indexWithTail_get SimplexItem simplexItem_revSys key s hs i hi t fdt ht
+
+-- non-vacuity: the refined boundary of two triangles (children of the kept edges of `UniformDerived(Index)`), chained with the
+-- edges of a third triangle refined the same way
+def exampleSeq : TSeq :=
+  .uniform (.masked (.uniform (.index 2 2 0) [.up (.simplexEdge 2 0 false), .up (.simplexEdge 2 1 false), .up (.simplexEdge 2 2 false)] 1) [0, 2, 4])
+    [.sq (.simplexChild 1 0), .sq (.simplexChild 1 1)] 1
+
+example : exampleSeq.WF SimplexItem (fun _ => 0) := by
+  simp [exampleSeq, TSeq.WF, DerivedItemOK, SimplexItem, TSeq.fd, TSeq.len, Item.td, Item.fd, Item.isUp, Up.td, Up.fd, Sq.dim]
+
+example : exampleSeq.len = 6 := by decide
+
+/-! ## compressed containers (`elementseq.References`, `pointsseq.PointsSequence`)
+
+`Alg.Seq.toList` is the sequence a container stands for.  The constructors below are the ones the classes really use
+(class specific overrides of take / compress / repeat / product / chain / children / edges, chain merging and balancing);
+every theorem says that the result denotes the corresponding list operation and is again well-formed, for all nestings. -/
+
+section containers
+variable {β : Type} [DecidableEq β] (o : Alg.Ops β)
+
+/-- `len(seq)` and `seq.get(i)` read the denoted list (any nesting). -/
+theorem containers_len_get (s : Alg.Seq β) (h : s.wf o) :
+    s.len o = (s.toList o).length ∧ ∀ i, s.get o i = (s.toList o)[i]? :=
+  ⟨Alg.Seq.len_eq o s h, Alg.Seq.get_eq o s h⟩
+
+/-- `from_iter` and `uniform` denote the items they were given. -/
+theorem containers_from_iter (l : List β) (x : β) (n : Nat) :
+    (Alg.fromIter l).toList o = l ∧ (Alg.uniformS x n).toList o = List.replicate n x :=
+  ⟨(Alg.toList_fromIter o l).1, (Alg.toList_uniformS o x n).1⟩
+
+/-- `seq.repeat(count)` -/
+theorem containers_repeat (s : Alg.Seq β) (c : Nat) (h : s.wf o) :
+    (Alg.repeatS s c).toList o = (List.replicate c (s.toList o)).flatten ∧ (Alg.repeatS s c).wf o :=
+  Alg.toList_repeatS o s c h
+
+/-- `a.chain(b)`: concatenation, whatever `_merge_chain` / `_balanced_chain` do to the representation. -/
+theorem containers_chain (a b : Alg.Seq β) (ha : a.wf o) (hb : b.wf o) :
+    (Alg.chainS o a b).toList o = a.toList o ++ b.toList o ∧ (Alg.chainS o a b).wf o :=
+  Alg.toList_chainS o a b ha hb
+
+/-- `seq.take(indices)` denotes `[seq[i] for i in indices]` for in-range indices whose hits in the first part of every chain
+precede the hits in the second part (`TakeOK`; all callers in the source pass increasing indices). -/
+theorem containers_take (s : Alg.Seq β) (idx : List Nat) (h : s.wf o) (hi : ∀ i ∈ idx, i < (s.toList o).length)
+    (hok : Alg.TakeOK o s idx) :
+    (Alg.takeS o s idx).toList o = idx.filterMap (fun i => (s.toList o)[i]?) ∧ (Alg.takeS o s idx).wf o :=
+  Alg.toList_takeS o s idx h hi hok
+
+/-- The restriction `TakeOK` is needed: `_Chain.take` returns the hits in the first sequence before the hits in the second
+one, so for indices that are not sorted across the chain boundary the order is wrong (replayed on the real code by the check:
+known finding `container-take:chain-unsorted-indices`). -/
+theorem containers_take_unsorted_counterexample :
+    let o : Alg.Ops Nat := ⟨fun a b => a * 10 + b, fun _ _ => []⟩
+    let s := Alg.chainS o (Alg.fromIter [1, 2, 1]) (Alg.fromIter [2, 2, 1])
+    (Alg.takeS o s [5, 0, 4, 1]).toList o ≠ [5, 0, 4, 1].filterMap (fun i => (s.toList o)[i]?) := by
+  decide
+
+/-- `seq.compress(mask)` -/
+theorem containers_compress (s : Alg.Seq β) (mask : List Bool) (h : s.wf o) (hm : mask.length = (s.toList o).length) :
+    (Alg.compressS o s mask).toList o = Alg.compressL (s.toList o) mask ∧ (Alg.compressS o s mask).wf o :=
+  Alg.toList_compressS o s mask h hm
+
+/-- `a.product(b)` (item products are associative by construction of `Reference.product`). -/
+theorem containers_product (hassoc : ∀ x y z, o.mul (o.mul x y) z = o.mul x (o.mul y z)) (a b : Alg.Seq β)
+    (ha : a.wf o) (hb : b.wf o) :
+    (Alg.productS o a b).toList o = Alg.prodL o.mul (a.toList o) (b.toList o) ∧ (Alg.productS o a b).wf o :=
+  Alg.toList_productS o hassoc a b ha hb
+
+/-- `seq.children` / `seq.edges` -/
+theorem containers_derived (tag : Bool) (s : Alg.Seq β) (h : s.wf o) :
+    (Alg.derivedS o tag s).toList o = (s.toList o).flatMap (o.der tag) ∧ (Alg.derivedS o tag s).wf o :=
+  Alg.toList_derivedS o tag s h
+
+end containers
 
 end NutilsVerif.C11
